@@ -811,7 +811,9 @@ func RunGoat(goat, dir string, env []string, args ...string) Run {
 	defer cancel()
 	cmd := exec.CommandContext(ctx, goat, args...)
 	cmd.Dir = dir
-	cmd.Env = append(os.Environ(), env...)
+	// PWD names the directory the way the caller spelled it (a shell does the same): os.Getwd in
+	// the child then reports a symbolic link as such instead of the physical path
+	cmd.Env = append(append(os.Environ(), env...), "PWD="+dir)
 	var so, se bytes.Buffer
 	cmd.Stdout = &so
 	cmd.Stderr = &se
